@@ -109,7 +109,7 @@ Section Pres.
            unfold tot in *; (let n := fresh "cnt" in set (n := np (wf f) s') in *; clearbody n) end.
     all: cbn [cntf wf wj ret_ready ret_pending] in Hu; rewrite ?cntf_app, ?cntf_opt_wake, ?cntf_wake_frames in Hu by done; cbn [cntf wf wj ret_ready ret_pending] in Hu.
     all: try (match goal with E : jobs _ = _ :: _ |- _ => rewrite E in * end).
-    all: cbn -[cntj length getf setf "++" nres]; rewrite ?jobs_setf; cbn -[cntj length getf setf "++" nres]; rewrite ?cntj_app; cbn [cntj wj nres app] in *
+    all: cbn -[cntj length getf setf "++" nres]; rewrite ?jobs_setf; cbn -[cntj length getf setf "++" nres]; rewrite ?cntj_app; cbn [cntj wj nres app] in *.
     all: repeat match goal with H : context [wj ?f ?j] |- _ => destruct (wj f j) end.
     (* clause 1 *)
     all: try (lazymatch goal with |- _ <= 1 => repeat case_bool_decide; simplify_eq; lia end).
